@@ -1,5 +1,5 @@
 #!/bin/sh
-for s in 10; do
-for id in C01 C02 C03 C04 C05 C06 C07 C08 C09 C10 C11 C12 C13 C14 C15 C16 C17 C18 C19 C20; do
+for s in 12; do
+for id in C05 C13 C01 C03 C08 C04 C07 C09 C10 C11 C12 C19 C20 C06 C02 C14 C15 C16 C17 C18; do
   VERIF_SEED=$s VERIF_NO_EVIDENCE=1 ./check $id --tier thorough | grep -v "^KNOWN" | tail -4 | cut -c1-400
 done; done
